@@ -243,6 +243,10 @@ pub trait AffineRepr: 'static + Sized + Copy + Clone + core::fmt::Debug + Partia
     fn mul_bigint(&self, e: <Self::ScalarField as PrimeField>::BigInt) -> (r: Self::Group)
         ensures r.aff() == Self::p_smul(<Self::ScalarField as PrimeField>::of_bigint(e), *self);
 }
+// affine points are plain values: Clone is Copy
+pub broadcast axiom fn ax_point_clone<G: AffineRepr>(a: &G, b: G)
+    requires #[trigger] call_ensures(<G as Clone>::clone, (a,), b),
+    ensures *a == b;
 // stands in for ark_ec::{CurveGroup, VariableBaseMSM, Group}; parametrised by base/scalar because Verus
 // rejects mutually recursive traits (AffineRepr <-> CurveGroup in arkworks)
 pub trait GroupOps<B, S>: Sized + Add<Self, Output=Self> {
@@ -366,7 +370,8 @@ pub open spec fn is_pow2(n: int) -> bool { exists|k: nat| n == #[trigger] pow2(k
 pub uninterp spec fn np2(n: int) -> int;
 pub broadcast axiom fn ax_np2(n: int)
     ensures #[trigger] np2(n) >= n, np2(n) >= 1, is_pow2(np2(n)), n >= 1 ==> np2(n) < 2 * n, n <= 1 ==> np2(n) == 1,
-            is_pow2(n) ==> np2(n) == n;
+            is_pow2(n) ==> np2(n) == n,
+            n <= 0x4000_0000_0000_0000 ==> np2(n) <= 0x4000_0000_0000_0000;
 pub assume_specification [usize::is_power_of_two] (x: usize) -> (r: bool) ensures r == is_pow2(x as int);
 pub assume_specification [usize::trailing_zeros] (x: usize) -> (r: u32) ensures x != 0 ==> r < usize::BITS, is_pow2(x as int) ==> pow2(r as nat) == x;
 pub assume_specification [usize::next_power_of_two] (x: usize) -> (r: usize)
